@@ -73,21 +73,6 @@ class Defn:
     needs: list[str] = field(default_factory=list)
 
 
-@dataclass
-class Item:
-    name: str  # module or package name
-    kind: str  # "batch" | "module" | "package"
-    files: dict[str, str]
-    target: list[str]  # stubgen target flags, e.g. ["-m", name] or ["-p", name]
-    owners: dict[str, dict[str, str]]  # module name -> {top-level name -> element id}
-    elements: list[str]  # element ids
-    family: str
-
-    def to_json(self) -> dict:
-        return {"name": self.name, "kind": self.kind, "files": self.files, "target": self.target,
-                "owners": self.owners, "elements": self.elements, "family": self.family}
-
-
 # ----------------------------------------------------------------------------- functions
 
 KIND_ORDER = {"P": 0, "K": 1, "V": 2, "N": 3, "W": 4}
@@ -169,9 +154,6 @@ def all_sequences(maxlen: int) -> list[tuple[str, ...]]:
             if _valid_sequence(seq):
                 out.append(seq)
     return out
-
-
-_ANN_NEEDS = {"Optional": "Optional", "Callable": "Callable", "Any": "Any"}
 
 
 def _needs_of(text: str) -> list[str]:
